@@ -771,6 +771,43 @@ def s15(ctx, rid):
         raise core.AnchorLost('dirty_bytes readings in appending blob bodies: %d' % n)
 
 
+def s16(ctx, rid):
+    """every notification of the maintenance worker is decided by its own condition: two notifications posted by one client
+    operation (sync request, deferred index dump, blob switch) are never the two alternatives of one branch - `if sync {..} else
+    if defer {..}` drops the deferred dump of a closed blob (the only thing that ever syncs a deletion record in it) whenever
+    the sync is due as well"""
+    prog = ctx.prog
+    n = 0
+    for f in prog.fns.values():
+        if f.file != 'src/storage/core.rs' or not f.is_coroutine:
+            continue
+        notes = [c for c in f.calls if c.bb in f.reachable() and c.name != 'poll' and any('storage::observer::Observer' in t for t in prog.resolve(c))
+                 and c.name not in ('run', 'shutdown', 'new', 'is_pending', 'is_running')]
+        if len(notes) < 2:
+            continue
+        dec = {c.bb: set(core.deciding_switches(f, c.bb)) for c in notes}
+        for i, x in enumerate(notes):
+            for y in notes[i + 1:]:
+                if x.name == y.name:
+                    continue
+                n += 1
+                key = 'notifications-independent|%s|%s-%s' % (prog.fns[f.id].root, x.name, y.name)
+                excl = None
+                for sw in dec[x.bb] & dec[y.bb]:
+                    t = f.blocks[sw]['t']
+                    outs = [tg for _, tg in t['vals']] + [t['otherwise']]
+                    rx = {o for o in outs if x.bb in f.reach_from([o], avoid_enter=[sw])}
+                    ry = {o for o in outs if y.bb in f.reach_from([o], avoid_enter=[sw])}
+                    if rx and ry and not (rx & ry):
+                        excl = sw
+                if excl is not None:
+                    ctx.bad(rid, key, f.where(excl), '`%s` and `%s` are the two alternatives of one branch: when both are due only one request reaches the worker, the other is lost until some later operation happens to post it again' % (x.name, y.name))
+                else:
+                    ctx.ok(rid, key, x.where(), 'decided independently', nontrivial=False)
+    if n < 1:
+        raise core.AnchorLost('pairs of worker notifications in one storage operation: %d' % n)
+
+
 RULES = [
     Rule('C12.S1', 'every ok-return of the blob constructor is preceded by the header append and then a completed ok file sync', s1, 2),
     Rule('C12.S2', 'every index dump / index-file construction call is dominated by an ok sync of the blob file (in the function or in every caller)', s2, 3),
@@ -786,6 +823,7 @@ RULES = [
     Rule('C12.S12', 'the configured dirty-byte limit reaches the configuration unchanged for every value', s12, 3),
     Rule('C12.S13', 'posting the sync request after an append depends on the dirty-byte trigger alone', s13, 2),
     Rule('C12.S15', 'the dirty-byte level reported by a write / delete is read after the append', s15, 1),
+    Rule('C12.S16', 'two worker notifications of one operation are never the alternatives of one branch', s16, 1),
     Rule('C12.S14', 'the worker serves every sync request it receives (no debounce between the message arm and the task start)', s14, 1),
     Rule('C12.S8', 'every boolean in-progress / request-pending flag that was set is released on every exit (drop guard or explicit clear on all paths): the sync it guards is never suppressed for ever', s8, 1),
 ]
